@@ -38,6 +38,37 @@ VALUES = ['', 'none', '0', '-1', '1.5', 'abc', '1e9', '9' * 30, '2147483647', '-
           'all', 'playready', 'clearkey-moov', 'ping', 'scte35', 'ec-3', 'xsd', 'ntp', '1', 'epoch', 'now']
 
 
+def boundary_routes():
+    """Every numeric path parameter at the powers of two where a width ends, each with its two neighbours (a comparison
+    written <= instead of < lets exactly one value through). Requested once each, without options."""
+    bounds = ['0', '99999999', '9' * 22] + [str(2 ** k + d) for k in (15, 16, 31, 32, 63, 64) for d in (-1, 0, 1)]
+    out = []
+    for big in bounds:
+        for mode in ('live', 'vod'):
+            out += [('media', f'/dash/{mode}/bbb/bbb_v7/{big}.m4v'), ('media', f'/dash/{mode}/bbb/bbb_a1/time/{big}.m4a'),
+                    ('mps-media', f'/mps/{mode}/testmps/1/bbb_v7/{big}.m4v'), ('mps-media', f'/mps/{mode}/testmps/1/bbb_v7/time/{big}.m4v'),
+                    ('mps-media', f'/mps/{mode}/testmps/{big}/bbb_v7/2.m4v'), ('mps-media', f'/mps/{mode}/testmps/{big}/bbb_v7/init.m4v'),
+                    ('mps-media', f'/mps/{mode}/testmps/{big}/bbb_v7/time/960.m4v')]
+        out += [('html', f'/stream/{big}'), ('html', f'/stream/1/{big}'), ('html', f'/stream/{big}/1'), ('html', f'/stream/1/1/segment/{big}'),
+                ('patch', f'/patch/bbb/hand_made/{big}'), ('html', f'/key/{big}'), ('html', f'/key/{big}/delete'),
+                ('html', f'/media/index/{big}'), ('api', f'/api/users/{big}'), ('html', f'/stream/{big}/defaults'),
+                ('html', f'/stream/{big}/delete'), ('html', f'/stream/1/{big}/delete'), ('html', f'/stream/1/{big}/edit')]
+    return out
+
+
+def bare_item(arg):
+    routes, tier = arg
+    w = W.World.shared(extras=True)
+    w.begin_item()
+    acc = core.Acc()
+    W.set_now(NOW)
+    for kind, path in routes:
+        r = w.get(path)
+        acc.state((path,))
+        judge(acc, kind, path, None, r, {'kind': 'hostile', 'rkind': kind, 'url': path, 'option': 'path-boundary'})
+    return acc
+
+
 def route_instances():
     out = []
     for stream in ('bbb', 'synirr', 'synvid', 'synnoref', 'synunidx', 'synempty', 'nosuch'):
@@ -457,6 +488,8 @@ def _dispatch(item):
         return census_item(arg)
     if kind == 'header-option':
         return header_option_item(arg)
+    if kind == 'bare':
+        return bare_item(arg)
     if kind.startswith('mp4'):
         from props import c16_mp4
         return c16_mp4.dispatch(kind, arg)
@@ -492,6 +525,8 @@ def run(ctx):
     for ch in core.chunks(routes if not ctx.quick else routes[::3], 6):
         items.append(('header', (ch, ctx.tier)))
     items.append(('body', ctx.tier))
+    for ch in core.chunks(boundary_routes(), 40):
+        items.append(('bare', (ch, ctx.tier)))
     for path in ('/dash/live/bbb/hand_made.mpd', '/dash/vod/bbb/hand_made.mpd', '/mps/live/testmps/hand_made.mpd',
                  '/dash/live/bbb/manifest_e.mpd'):
         for ch in core.chunks(names, 8):
